@@ -57,7 +57,8 @@ type Item struct {
 
 // Config is the registry of one option set.
 type Config struct {
-	Name   string
+	Name     string
+	HasBytes bool // generated with []byte variants (Item.NewBytes differs from Item.New)
 	Items  []*Item
 	byName map[string]*Item
 	// ByTag / ByName are the generated lookups themselves (C17 checks them against Items).
